@@ -159,6 +159,7 @@ type JobConfig struct {
 	UnwindBound int
 	ShuffleSwaps int
 	EagerAsserts bool
+	AssertPrefix []string
 	NoIntMode    bool
 	NoModelDecide bool
 	SampleEvery  int
